@@ -311,17 +311,29 @@ func (m *model) nftTransfer() {
 				return
 			}
 			var dstPrev *big.Int
-			if t, _ := m.getTok(dst, TokenKey(token, nonce)); t != nil && t.Value != nil {
-				dstPrev = new(big.Int).Set(t.Value)
+			var dstProps []byte
+			if t, _ := m.getTok(dst, TokenKey(token, nonce)); t != nil {
+				dstProps = t.Properties
+				if t.Value != nil {
+					dstPrev = new(big.Int).Set(t.Value)
+				}
 			}
 			if !m.credit(dst, token, nonce, qty, before) {
 				return
 			}
 			// the statement prices "copied bytes of each cross-shard NFT payload"; for a same-shard
-			// transfer both conventions are accepted (no copy charge; copy charge on the moved entry)
-			ch := []uint64{fn, fn + dc*payloadLen(qty)}
+			// transfer both conventions are accepted (no copy charge; copy charge on the moved entry,
+			// with the sender's or with the destination's properties, before or after the merge)
+			withProps := func(v *big.Int, props []byte) uint64 {
+				t := CloneToken(before)
+				t.Value = v
+				t.Properties = props
+				return uint64(len(EncodeToken(t)))
+			}
+			ch := []uint64{fn, fn + dc*payloadLen(qty), fn + dc*withProps(qty, dstProps)}
 			if dstPrev != nil {
-				ch = append(ch, fn+dc*payloadLen(new(big.Int).Add(qty, dstPrev)))
+				sum := new(big.Int).Add(qty, dstPrev)
+				ch = append(ch, fn+dc*payloadLen(sum), fn+dc*withProps(sum, dstProps))
 			}
 			m.setCharge(ch...)
 			if hasCall && IsContract(dst) {
@@ -444,6 +456,9 @@ func (m *model) multiTransfer() {
 			return ""
 		}}
 		var moved []Carry
+		// propsDiffer: an NFT entry moves inside the shard between holders whose properties differ in
+		// length (a frozen single NFT is involved): which of the two the priced bytes carry is open
+		propsDiffer := false
 		for i := 0; i < n; i++ {
 			token, nonce, qty := c.Args[2+3*i], lowU64(c.Args[3+3*i]), be(c.Args[4+3*i])
 			if qty.Sign() == 0 {
@@ -465,8 +480,15 @@ func (m *model) multiTransfer() {
 			}
 			if isLocal {
 				var dstPrev *big.Int
-				if t, _ := m.getTok(dst, TokenKey(token, nonce)); t != nil && t.Value != nil {
-					dstPrev = new(big.Int).Set(t.Value)
+				if t, _ := m.getTok(dst, TokenKey(token, nonce)); t != nil {
+					if nonce > 0 && len(t.Properties) != len(before.Properties) {
+						propsDiffer = true
+					}
+					if t.Value != nil {
+						dstPrev = new(big.Int).Set(t.Value)
+					}
+				} else if nonce > 0 && len(before.Properties) > 0 {
+					propsDiffer = true
 				}
 				if !m.credit(dst, token, nonce, qty, before) {
 					return
@@ -503,7 +525,9 @@ func (m *model) multiTransfer() {
 		m.vd.Moved = moved
 		m.vd.MovedTo = dst
 		if isLocal {
-			if chargeHi != chargeMid {
+			if propsDiffer {
+				// (no exact price is demanded for this call)
+			} else if chargeHi != chargeMid {
 				m.setCharge(chargeLo, chargeMid, chargeHi)
 			} else {
 				m.setCharge(chargeLo, chargeMid)
@@ -747,7 +771,7 @@ func (m *model) nftCreate() {
 		return
 	}
 	key := TokenKey(token, next)
-	if raw := m.preRaw(c.Caller, key); len(raw) != 0 {
+	if raw := m.preRaw(c.Caller, key); len(raw) != 0 && !isPlaceholder(raw) {
 		m.mustFail(P("C07", "C02", "C15"), "the creator already holds an entry under nonce %d of %q (counter %d): the create would not be under a fresh nonce (the counter is behind an issued nonce)", next, token, cur)
 		return
 	}
@@ -1254,4 +1278,11 @@ func (m *model) saveKeyValue() {
 		}
 	}
 	m.setCharge(charge)
+}
+
+// isPlaceholder: a zero-balance entry without metadata (what a single-NFT freeze leaves at an
+// account that does not hold the nonce): it holds nothing.
+func isPlaceholder(raw []byte) bool {
+	t, err := DecodeToken(raw)
+	return err == nil && t.Meta == nil && (t.Value == nil || t.Value.Sign() == 0)
 }
